@@ -79,6 +79,9 @@ static int compare_page(Report &r, vbi_decoder *dec, unsigned pgno, unsigned sub
 			if ((unsigned) pg.nav_link[i].pgno != lp) return r.fail("C02:flof-link", "%s: page %x.%x FLOF link %d is %x, transmitted %x", when, pgno, subno, i, pg.nav_link[i].pgno, lp);
 		}
 	}
+	// the sixth link of X/27/0 is the index page; without FLOF links the network's initial page (100 as long as no packet 8/30 names another) is reported
+	{ unsigned want = st.have_x27 ? st.link_pg[5] : 0x100;
+	  if ((unsigned) pg.nav_link[5].pgno != want) return r.fail("C02:flof-link", "%s: page %x.%x index link (nav_link[5]) is %x, %s %x", when, pgno, subno, pg.nav_link[5].pgno, st.have_x27 ? "the sixth link of X/27/0 is" : "no X/27/0 was transmitted, the initial page is", want); }
 	return 0;
 }
 
